@@ -190,6 +190,8 @@ mut("loader-uses-39-api", ["C15"], "code_data/_json_data.py",
 mut("dumper-version-dependent", ["C15"], "code_data/_json_data.py",
     "    if isinstance(value, bytes):\n        return {\"bytes\": b64encode(value).decode(\"ascii\")}",
     "    if isinstance(value, bytes):\n        import sys\n        if sys.version_info >= (3, 12) and not value:\n            return {\"bytes\": \"====\"}\n        return {\"bytes\": b64encode(value).decode(\"ascii\")}")
+mut("surrogate-string-repr", ["C15"], "code_data/_json_data.py",
+    "            return {\"string\": ascii(value)}", "            return {\"string\": repr(value)}")
 mut("int-string-threshold-by-version", ["C15"], "code_data/_json_data.py",
     "        if value < MIN_INTEGER or value > MAX_INTEGER:",
     "        import sys\n        if value < MIN_INTEGER or value > (MAX_INTEGER if sys.version_info < (3, 9) else MAX_INTEGER + 2):")
